@@ -1,2 +1,19 @@
+import vf, slicer
+def record_jobs(prop, tier, entries=('c10_record_f', 'c10_record_h')):
+    quick = tier == 'quick'
+    U = [vf.Unit('cmdline/state.c', flags=vf.PATHMAX64, transform=slicer.slices(['f', 'h']), remove=['__CPROVER_file_local_state_c_decoding_error']),
+         vf.Unit('cmdline/stream.c', flags=vf.PATHMAX64)]
+    J = []
+    for e in entries:
+        for bs in ([256] if quick else [256, 65536]):
+            J.append(vf.Job('%s/records/%s/bs%d' % (prop, e, bs), ['C10_records.c', 'stubs/log_stubs.c'], units=U, entry=e, defines=['BSIZE=%d' % bs], cflags=vf.PATHMAX64, unwind=18, timeout=2400 if quick else 7200, mem_gb=12,
+                            native=False, decisive=r'VF:|unwinding', cost=200,
+                            funcs=['state_read_content (record handler %s, verbatim slice)' % e[-1], 'sgetb32', 'sgetb64', 'sgetbs', 'sread', 'sputb32', 'sputb64', 'sputbs', 'swrite', 'sflush', 'sfill'],
+                            sample={'record': e[-1], 'block_size': bs, 'field values (size, time, inode, name bytes, positions, counts, states, hashes), hash size 8/16, clear_past_hash, force_nocopy, force_realloc': 'symbolic', 'blocks followed to the end': 3}))
+    return J
 def jobs(tier, seed):
-    return []
+    J = record_jobs('C10', tier)
+    U = J[0].units
+    J.append(vf.Job('C10/records/negctl', ['C10_records.c', 'stubs/log_stubs.c'], units=U, entry='c10_records_negctl', defines=['NEGCTL'], cflags=vf.PATHMAX64, unwind=18, kind='negctl', native=False, decisive=r'VF:|unwinding',
+                    sample={'wrong_oracle': 'past hash of a pending block kept although past hashes are distrusted'}))
+    return J
